@@ -519,7 +519,7 @@ fn main() {
   space.insert("ladder_rungs".into(), json!(ladder_jobs.len()));
 
   // ---- 5. width ladders ----
-  let widths: Vec<usize> = if run.quick() { vec![0, 1, 2, 15, 16, 17, 18, 33] } else { (0..=40).chain([64, 100, 255, 256, 257, 1000]).collect() };
+  let widths: Vec<usize> = if run.quick() { vec![0, 1, 2, 15, 16, 17, 18, 33] } else { (0..=40).chain([64, 100, 255, 256, 257]).collect() };
   let width_jobs: Vec<(usize, &'static str, String)> =
     widths.iter().flat_map(|n| width_programs(*n).into_iter().map(move |(k, t)| (*n, k, t))).collect();
   space.insert("width_ladder_programs".into(), json!(width_jobs.len()));
